@@ -384,6 +384,9 @@ fn tokenize(text: &str) -> Result<Vec<Tok>, String> {
 struct P {
     t: Vec<Tok>,
     i: usize,
+    /// `parse_go_raw`: keep every numeric token as `(num <text as printed>)` (no constant classification, no
+    /// canonical spelling) — Go evaluates constant expressions on the literal TEXTS
+    raw: bool,
 }
 
 type R<T> = Result<T, String>;
@@ -500,7 +503,7 @@ impl P {
             }
             self.i += 1;
             let rhs = self.expr(p + 1, nolit)?;
-            if is_num_node(&lhs) && is_num_node(&rhs) {
+            if !self.raw && is_num_node(&lhs) && is_num_node(&rhs) {
                 lhs = tagged("bin", vec![a(op), classify_const(lhs), classify_const(rhs)]);
             } else {
                 lhs = tagged("bin", vec![a(op), lhs, rhs]);
@@ -909,8 +912,16 @@ fn canon_tree(s: S) -> S {
 
 pub fn parse_go(text: &str) -> Result<S, String> {
     let toks = tokenize(text)?;
-    let mut p = P { t: toks, i: 0 };
+    let mut p = P { t: toks, i: 0, raw: false };
     p.file().map(canon_tree)
+}
+
+/// the same parse, but numeric literals keep their printed text: `(num "0.10000000149011612")`, and an operator on
+/// two literals stays `(bin + (num …) (num …))` (used by C10 to evaluate Go constant expressions exactly)
+pub fn parse_go_raw(text: &str) -> Result<S, String> {
+    let toks = tokenize(text)?;
+    let mut p = P { t: toks, i: 0, raw: true };
+    p.file()
 }
 
 /// first differing path between two S-expressions (for reports)
